@@ -51,8 +51,16 @@ def build(rng):
     w = Fluent("w", BoolType())
     n = Fluent("n", IntType(0, 5))
     loc = Fluent("loc", T)
-    pr.add_fluent(h, default_initial_value=False)
-    pr.add_fluent(k, default_initial_value=False)
+    # hidden fluents: default False, default True (per fluent), or the per-type default (which may be True) -- the hidden state chosen by
+    # the environment must overwrite whatever the default is
+    hd = rng.random()
+    if hd < 0.4:
+        pr.add_fluent(h, default_initial_value=False)
+    elif hd < 0.75 or BoolType() not in type_defaults:
+        pr.add_fluent(h, default_initial_value=True)
+    else:
+        pr.add_fluent(h)
+    pr.add_fluent(k, default_initial_value=rng.choice([False, True]))
     # visible fluents: per-fluent default / per-type default / explicit
     if BoolType() in type_defaults and rng.random() < 0.5:
         pr.add_fluent(v)
